@@ -6,38 +6,68 @@
 (*    double quotes as the printer of Lexical.tla writes it;               *)
 (*  - every service-function shape: 0..MaxArgs arguments x (no throws      *)
 (*    clause | 0..MaxThrows throws entries) x oneway, with the id pattern  *)
-(*    (explicit / implicit / negative) of both lists.                      *)
+(*    (explicit / implicit / negative) of both lists;                      *)
+(*  - the numeric boundary family: sign x magnitude class x place for     *)
+(*    double constants around the integer range of the IDL (the classes   *)
+(*    are names; lib/c03_seeds.py NUM_CLASSES holds their spellings       *)
+(*    because TLC integers are 32 bit);                                    *)
+(*  - every raw source literal over RawAlphabet (pieces of source text    *)
+(*    such as \t, \\, \", \') up to MaxRaw pieces, with the quote styles *)
+(*    in which the grammar reads it as one closed literal.  These are     *)
+(*    judged by AST1 = AST2 alone: no content model is involved, so the   *)
+(*    backslash-before-quote sequences excluded above are included here.  *)
 (***************************************************************************)
 EXTENDS LexLit, TLC, Json
 
 CONSTANTS Alphabet,      \* sequence of symbols; a symbol is a sequence of atoms
-          MaxLen, MaxArgs, MaxThrows
+          MaxLen, MaxArgs, MaxThrows,
+          RawAlphabet,   \* sequence of pieces; a piece is a sequence of characters
+          MaxRaw,
+          NumClasses,    \* names of double magnitudes (1e15 .. 1e20, neighbours of 2^63, non-integral neighbours)
+          NumPlaces      \* where the double stands: const, default, listelem, mapvalue
 
 VARIABLES w,     \* literal under construction: sequence of symbol indices
-          s      \* service shape or "none"
-vars == <<w, s>>
+          s,     \* service shape or "none"
+          m      \* "lit": w is a content over Alphabet, "raw": w is a source text over RawAlphabet
+vars == <<w, s, m>>
 
 RECURSIVE Atoms(_, _)
 Atoms(x, i) == IF i > Len(x) THEN <<>> ELSE Alphabet[x[i]] \o Atoms(x, i + 1)
 
 NoShape == [na |-> -1, nt |-> -2, ow |-> FALSE, ids |-> "-"]
-Init == w = <<>> /\ s = NoShape
+Init == w = <<>> /\ s = NoShape /\ m = "lit"
 
-Grow == /\ s = NoShape /\ Len(w) < MaxLen
+Grow == /\ s = NoShape /\ m = "lit" /\ Len(w) < MaxLen
         /\ \E k \in 1..Len(Alphabet) : w' = Append(w, k)
-        /\ UNCHANGED s
+        /\ UNCHANGED <<s, m>>
+
+RECURSIVE Chars(_, _)
+Chars(x, i) == IF i > Len(x) THEN <<>> ELSE RawAlphabet[x[i]] \o Chars(x, i + 1)
+GrowRaw == /\ s = NoShape /\ Len(w) < MaxRaw
+           /\ \/ m = "lit" /\ w = <<>> /\ m' = "raw"
+              \/ m = "raw" /\ m' = "raw"
+           /\ \E k \in 1..Len(RawAlphabet) : w' = Append(w, k)
+           /\ UNCHANGED s
+\* the grammar reads q r q as one literal: no unescaped q inside, and the closing quote is not itself escaped
+ClosedIn(r, q) == ReadLit(r, q, 1)[1] /\ (Len(r) = 0 \/ r[Len(r)] # BS)
 
 \* nt = -1: no throws clause at all
 Shape == /\ s = NoShape /\ w = <<>>
          /\ \E na \in 0..MaxArgs, nt \in -1..MaxThrows, ow \in BOOLEAN, ids \in {"explicit", "implicit", "negative"} :
                /\ (ow => nt <= 0)
                /\ s' = [na |-> na, nt |-> nt, ow |-> ow, ids |-> ids]
-         /\ UNCHANGED w
+         /\ m = "lit" /\ UNCHANGED <<w, m>>
 
-Next == Grow \/ Shape
+Next == Grow \/ GrowRaw \/ Shape
 
 Emit ==
-  /\ (s = NoShape =>
+  /\ (w = <<>> /\ s = NoShape /\ m = "lit" =>
+        \A sg \in {"+", "-"}, c \in NumClasses, pl \in NumPlaces :
+           PrintT("NUM " \o ToJson([sign |-> sg, cls |-> c, place |-> pl])))
+  /\ (s = NoShape /\ m = "raw" =>
+        LET r == Chars(w, 1) IN
+        PrintT("RAW " \o ToJson([syms |-> w, text |-> Concat(r, 1), dq |-> ClosedIn(r, DQ), sq |-> ClosedIn(r, SQ)])))
+  /\ (s = NoShape /\ m = "lit" =>
         LET a == Atoms(w, 1) IN
         PrintT("LIT " \o ToJson([syms |-> w, atoms |-> a, ok |-> ReadsBack(a),
                                  raw |-> IF Writable(a) THEN Raw(a, DQ) ELSE "", content |-> Content(a)])))
